@@ -357,6 +357,13 @@ def check_scenario(ctx: Ctx, sc, res, origin):
                         continue
                     if not (fully_present(Y, d, v) or (res["free"]["out"] != "Ok" and _vec(Y, d) == _vec(P, d))):
                         fail("rerun-insert-incomplete", at, mid, f"after re-running {op} dataset {d} is {_vec(Y, d)}", dataset=d)
+                if targets and all(fully_present(X, d, v) for d, v in targets.items()):
+                    # the insertion had completed before the death: re-running it is a refused no-op
+                    ctx.hist("rerun_of_completed_insertion", kind)
+                    ch = [d for d in range(NSLOT) if _vec(Y, d) != _vec(X, d)]
+                    if ch or Y["ext"] != X["ext"]:
+                        fail("rerun-of-completed-insertion-changed", at, mid,
+                             f"re-running the completed {op} changed datasets {ch} / the staging area: {[[_vec(X, d), _vec(Y, d)] for d in ch][:2]}")
             else:
                 rerun = ops[0][0] != "emptytrash" or kind == "emptytrash"
                 for d in targets:
@@ -488,14 +495,18 @@ def check_shared(ctx: Ctx, sc, res, origin):
             interrupted = not (flags and all(flags))
             for f in c["follow"]:
                 Y, tag = f["obs"], ":after-rerun"
-                if not interrupted:
-                    # nothing was interrupted: re-ingesting what is already there is a refusal (and for ingest_zip that refusal
-                    # is destructive: C09's known finding) -- not part of this property
-                    ctx.hist("shared_rerun_skipped_insertion_was_complete", kind)
-                    continue
                 if f["exit"] == "hang":
                     fail("hang" + tag, at, mid, "follow-up never returned")
                 common(Y, at, mid, tag)
+                if not interrupted:
+                    # the insertion had completed: re-running it must be a refused no-op (since /repo 2da36a1 the datastore
+                    # refuses before any file / zip is transferred; before, the refusal rolled back over the stored zip)
+                    ctx.hist("shared_rerun_of_completed_insertion", kind)
+                    ch = [d for d in range(NSLOT) if _vec2(Y, d) != _vec2(X, d)]
+                    if ch or artifact_tokens(Y)[0] != artifact_tokens(X)[0]:
+                        fail("rerun-of-completed-insertion-changed", at, mid,
+                             f"re-running the completed {op} changed datasets {ch}: {[[_vec2(X, d), _vec2(Y, d)] for d in ch][:2]}; artifacts "
+                             f"{sorted(map(str, artifact_tokens(X)[0]))} -> {sorted(map(str, artifact_tokens(Y)[0]))}")
                 for d, sv in targets.items():
                     if not (present2(Y, d, sv) or (res["free"]["out"] != "Ok" and _vec2(Y, d) == _vec2(P, d))):
                         if kind == "ingestmulti" and op[1] == "move" and not any(e[0] == op[2][0] for e in X["ext"]):
@@ -713,8 +724,6 @@ def sccase(sc, res):
     for c in res["crashes"]:
         st2 = {d for d, _ in c["obs"]["ext"]}
         fl = ["([" + "; ".join(x for o in f["ops"] for x in sops(o, (), st2)) + "], " + scobs(f["obs"]) + ")" for f in c["follow"]]
-        if sc["op"][0] == "ingestzip" and shared_insert_complete(sc, res, c):
-            fl = []     # re-ingesting a zip that is completely there: the refusal itself is destructive (C09's known finding)
         pts.append("(" + scobs(c["obs"]) + ", [" + ";\n      ".join(fl) + "])")
     return ("mkSCase [" + "; ".join(pre_ops) + "]\n   " + scobs(res["pre_obs"]) + "\n   (" + op + ")\n   ["
             + ";\n    ".join(seq) + "]\n   [" + ";\n    ".join(pts) + "]")
